@@ -20,7 +20,7 @@ from tvf.records import coherent_rows
 FACTORS = dict(
     target=["gauss2", "bimodal", "expface", "vonmises", "expface_refl", "support"],
     kernel=["tpcn", "rwm"], resample=["mult", "syst"], clustering=[False, True],
-    mode=["vec", "scalar", "blobs"], metric=["ess", "vol"], N=[32, 64], ntot=[2, 5],
+    mode=["vec", "scalar", "blobs", "blobs2"], metric=["ess", "vol"], N=[32, 64], ntot=[2, 5],
 )
 TRIMS = [(0.99, 1000), (0.9, 10), (0.5, 100), (0.999, 1000), (0.99, 2), (0.7, 37)]
 
@@ -59,7 +59,7 @@ def case(cfg, trims):
     for j in range(len(xflat)):
         ref_lw[xflat[j].tobytes()] = float(lwn[j])
     pool_n = len(xflat)
-    have_blobs = c["mode"] == "blobs"
+    have_blobs = c["mode"] in ("blobs", "blobs2")
     for (rs, rb, tr, rl) in itertools.product([False, True], repeat=4):
         for (et, bt) in (trims if tr else trims[:1]):
             where = f"posterior(resample={rs}, return_blobs={rb}, trim_importance_weights={tr}, return_logw={rl}, ess_trim={et}, bins_trim={bt})"
